@@ -31,6 +31,7 @@ META["text"] = (
     "(2) for pairs of ellipsoids, cylinders, boxes, capsules and spheres routed to GJK/EPA, mj_geomDistance (both geom orders) and the contact dist of mj_collision are compared with an independent reference: "
     "separated pairs — alternating projections onto the two bodies, accepted only with a certificate (upper bound |b-a| from feasible points, lower bound from the separating slab along b-a, gap < 1e-7), tolerance 1e-6; "
     "penetrating pairs — the reported depth must equal the extent h_A(n)+h_B(-n) of the Minkowski difference along the reported normal and no direction found by a multi-start projected-gradient search may give a smaller extent (tolerance 1e-5 up to depth 0.02, deeper penetrations 2e-3 relative: the EPA is iteration-limited there); "
+    "touching: axis-aligned pairs exactly touching and +-1e-12 apart, in a canonical frame and under a common rigid motion, must report the gap within 2e-6 (KNOWN finding C15-F1 touching-degenerate: the native GJK/EPA returns garbage, up to the centre distance, for a few percent of such configurations); "
     "swap symmetry: same distance in both orders, witness points exchanged (normal reversed; contact normals of the two orders within 3 degrees at convergence, 8 degrees with default settings). "
     "The distance oracle runs twice: with mjOption.ccd_iterations raised to 200 (GJK/EPA stop on ccd_tolerance = 1e-6: tolerance 2e-6 on every distance) and with the shipped default of 35 iterations, where the EPA on margin-inflated curved shapes is iteration-limited "
     "(observed: contact dist off by up to 1e-4 and normal by ~3 degrees at inflated depth 0.06, both gone with 100 iterations) and tolerances scale with the depth (1e-5 below depth 0.02, else 0.2-0.5 percent).")
@@ -397,6 +398,48 @@ def dist_cases(ctx):
     return cs
 
 
+def touching_cases(ctx):
+    """axis-aligned pairs of GJK/EPA shapes exactly touching (gap 0) and a hair apart / overlapping (+-1e-12), in the
+    canonical frame and under a common random rigid motion.  B is centred on a principal axis d of A with its own axes mapped onto
+    A's axes, so both bodies are symmetric about the line of centres and the true signed distance along d equals the gap exactly."""
+    rng = ctx.rng
+    big = ctx.tier != "quick"
+    pairs = [(ELLIPSOID, ELLIPSOID), (ELLIPSOID, CYLINDER), (ELLIPSOID, BOX), (CYLINDER, CYLINDER), (CYLINDER, BOX), (BOX, BOX),
+             (SPHERE, ELLIPSOID), (CAPSULE, ELLIPSOID), (CAPSULE, CYLINDER)]
+    combos = [(tA, tB, qn, q, dn, d, gap) for (tA, tB) in pairs for (qn, q) in G.ALIGNED_QUATS[:4] for (dn, d) in (G.ALIGNED_DIRS[0], G.ALIGNED_DIRS[2], G.ALIGNED_DIRS[3])
+              for gap in (0.0, 1e-12, -1e-12)]
+    if not big:
+        combos = rng.sample(combos, 40) + [c for c in combos if c[0] == CYLINDER and c[1] == CYLINDER and c[2] == "aligned" and c[4] == "+y"]
+    out = []
+    for gid, (tA, tB, qn, qB, dn, d, gap) in enumerate(combos):
+        sA = [rng.choice([0.1, 0.15]), rng.choice([0.2, 0.12]), rng.choice([0.25, 0.08])]
+        sB = [rng.choice([0.1, 0.2]), rng.choice([0.1, 0.15]), rng.choice([0.12, 0.3])]
+        A0, B0 = Shape(tA, sA, [0.0, 0, 0], EYE), Shape(tB, sB, [0.0, 0, 0], G.quat2mat(qB))
+        pB = scl(d, A0.h(d) + B0.h(scl(d, -1.0)) + gap)
+        qR = unit(G.qmul(G.qmul(G.qaxis([0, 0, 1.0], rng.uniform(0.3, 2.8)), G.qaxis([0, 1.0, 0], rng.uniform(0.2, 1.3))), G.qaxis([1.0, 0, 0], rng.uniform(0.2, 1.3))))
+        for motion in (None, (qR, G.rvec(rng, 1.0))):
+            out.append(dict(group=gid, label="%s-%s %s along %s gap %g" % (NAME[tA], NAME[tB], qn, dn, gap), tA=tA, sA=sA, tB=tB, sB=sB, qB=qB, pB=pB, gap=gap, motion=motion, swap=False))
+    return out
+
+
+def touching_oracle(ctx, cases, results, stats):
+    for c, w in zip(cases, results):
+        world = list(G.aligned_world(c))
+        case = {"touching": c["label"], "world": world, "rigid_motion": c["motion"]}
+        cls = "touching-degenerate" if abs(c["gap"]) < 1e-9 else "distance"
+        sig = {"site": "mjc_ccd", "class": cls}
+        if w is None:
+            continue
+        stats["touching_checked"] = stats.get("touching_checked", 0) + 1
+        for which in ("gd12", "gd21"):
+            err = abs(w[which] - c["gap"])
+            stats["touching_max_err"] = max(stats.get("touching_max_err", 0.0), err)
+            if err > 2e-6:
+                ctx.violation("impl_violation", dict(case, what="mj_geomDistance of (nearly) touching bodies equals the gap", order=which), expected=c["gap"], observed=w[which],
+                              theorem="C15 oracle: distance of touching bodies", signature=sig)
+                break
+
+
 def world_line(c, swap):
     (t1, s1, p1, q1, t2, s2, p2, q2) = c
     if swap:
@@ -547,6 +590,14 @@ def run(ctx):
             for k, c in enumerate(dcs):
                 distance_oracle(ctx, c, parse_world(lines[2 * k]), parse_world(lines[2 * k + 1]), stats, rng, mode)
     stats = allstats["converged"]
+    # ---------------- exactly touching / almost touching aligned pairs (the 'touching' clause of the quantifier)
+    tcs = touching_cases(ctx)
+    rc, out, err = ctx.run(e_w, "CCD 0\n" + "".join(G.aligned_line(c) for c in tcs))
+    lines = out.strip("\n").split("\n") if out.strip() else []
+    if rc != 0 or len(lines) != len(tcs):
+        ctx.broken.append(("correspondence", "driver c13_prim failed (touching stream for C15)", "rc=%s lines=%d/%d %s" % (rc, len(lines), len(tcs), err[-800:])))
+    else:
+        touching_oracle(ctx, tcs, [G.parse_world_line(l) for l in lines], stats)
     phase["distance_oracle"] = round(time.time() - t0, 1)
     # ---------------- coverage
     ctx.cov["evaluations"] = len(coq_cases) + 2 * len(dcs)
